@@ -98,49 +98,64 @@ fn check_tiling(locs: &Vec<BlockChunk>, n: usize, maxchunks: usize) -> bool {
     saw_stream
 }
 
-kproof! {
-    /// K01a: scanner tiling, every 8-byte file with at most two signature look-alikes,
-    /// the four callees replaced by their contracts
-    #[kani::stub(crate::preflate_container::decompress_deflate_stream, contract_decompress)]
-    #[kani::stub(crate::scan_deflate::skip_gzip_header, contract_skip_gzip)]
-    #[kani::stub(crate::scan_deflate::parse_zip_stream, contract_parse_zip)]
-    #[kani::stub(crate::idat_parse::parse_idat, contract_parse_idat)]
-    fn k01a_scan_tiling_8() {
-        // two symbolic 2-byte windows (each may or may not be a signature) in an otherwise zero file:
-        // symbolic execution forks on every byte pair that *could* be a signature, so the number of
-        // symbolic pairs, not the file length, is what bounds the cost (8 symbolic bytes: > 18 GB)
-        let mut data = [0u8; 8];
-        let w: [u8; 4] = kani::any();
-        data[1] = w[0]; data[2] = w[1]; data[5] = w[2]; data[6] = w[3];
-        let mut locs: Vec<BlockChunk> = Vec::with_capacity(8);
-        split_into_deflate_streams(&data[..], &mut locs, 0);
-        let saw = check_tiling(&locs, 8, 6);
-        kani::cover!(saw, "a stream chunk was emitted");
-        kani::cover!(locs.len() >= 3, "literal, stream, literal");
-        core::mem::forget(locs);
+/// Signature kinds placed at CONCRETE offsets of an otherwise zero file; what the scanner does at each hit depends
+/// only on the (symbolic) outcomes of the contract stubs.  Symbolic file bytes make symbolic execution fork into
+/// every arm at every byte pair (8 symbolic bytes: > 20 GB), so the *places and kinds* of look-alikes are concrete
+/// per instance and everything the callees may answer is symbolic.
+const SIG_NONE: u8 = 0; const SIG_ZLIB: u8 = 1; const SIG_GZIP: u8 = 2; const SIG_ZIP: u8 = 3; const SIG_IDAT: u8 = 4;
+fn place(data: &mut [u8], at: usize, kind: u8) {
+    match kind {
+        SIG_ZLIB => { data[at] = 0x78; data[at + 1] = 0x9c; }
+        SIG_GZIP => { data[at] = 0x1f; data[at + 1] = 0x8b; }
+        SIG_ZIP => { data[at] = 0x50; data[at + 1] = 0x4b; }
+        SIG_IDAT => { data[at] = 0x49; data[at + 1] = 0x44; }
+        _ => {}
     }
 }
-
-kproof! {
-    /// K01a': a 1056-byte file = 16 symbolic bytes followed by zeros (no signature in the zero part), so
-    /// that every arm can ACCEPT: gzip/zip headers fit, and an IDAT run can exceed MIN_BLOCKSIZE.
+fn scan_case<const N: usize>(k1: u8, at1: usize, k2: u8, at2: usize) {
+    let mut data = [0u8; N];
+    place(&mut data, at1, k1);
+    place(&mut data, at2, k2);
+    let mut locs: Vec<BlockChunk> = Vec::with_capacity(8);
+    split_into_deflate_streams(&data[..], &mut locs, 0);
+    let _saw = check_tiling(&locs, N, 6);
+    core::mem::forget(locs);
+}
+macro_rules! scan_h { ($(#[$m:meta])* fn $n:ident() $b:block) => { kproof! {
+    $(#[$m])*
     #[kani::stub(crate::preflate_container::decompress_deflate_stream, contract_decompress)]
     #[kani::stub(crate::scan_deflate::skip_gzip_header, contract_skip_gzip)]
     #[kani::stub(crate::scan_deflate::parse_zip_stream, contract_parse_zip)]
     #[kani::stub(crate::idat_parse::parse_idat, contract_parse_idat)]
-    fn k01a_scan_tiling_big() {
-        const N: usize = 1056;
-        // two symbolic 2-byte windows at offsets 4 and 12 in a zero file (see k01a_scan_tiling_8)
-        let w: [u8; 4] = kani::any();
-        let mut data = [0u8; N];
-        data[4] = w[0]; data[5] = w[1]; data[12] = w[2]; data[13] = w[3];
-        let mut locs: Vec<BlockChunk> = Vec::with_capacity(8);
-        split_into_deflate_streams(&data[..], &mut locs, 0);
-        let saw = check_tiling(&locs, N, 6);
-        kani::cover!(saw, "a stream chunk was emitted");
-        kani::cover!(locs.len() >= 4, "two streams accepted");
-        kani::cover!(locs.len() >= 2 && matches!(locs[1], BlockChunk::IDATDeflate(..)), "an IDAT run was accepted");
-        core::mem::forget(locs);
+    fn $n() $b
+} } }
+scan_h! {
+    /// K01a: scanner tiling: one look-alike of each kind in a 1056-byte file (long enough for every arm to
+    /// accept: gzip/zip headers fit, an IDAT run can exceed MIN_BLOCKSIZE), every contract-allowed outcome
+    fn k01a_scan_tiling_single() {
+        scan_case::<1056>(SIG_ZLIB, 3, SIG_NONE, 0);
+        scan_case::<1056>(SIG_GZIP, 0, SIG_NONE, 0);
+        scan_case::<1056>(SIG_ZIP, 5, SIG_NONE, 0);
+        scan_case::<1056>(SIG_IDAT, 4, SIG_NONE, 0);
+        kani::cover!(true, "reached");
+    }
+}
+scan_h! {
+    /// K01a-pairs: an IDAT look-alike right after a zlib look-alike (the look-back of 4 bytes can reach into an
+    /// already accepted stream), and two zlib look-alikes
+    fn k01a_scan_tiling_pairs() {
+        scan_case::<1056>(SIG_ZLIB, 4, SIG_IDAT, 12);
+        scan_case::<1056>(SIG_ZLIB, 0, SIG_ZLIB, 6);
+        kani::cover!(true, "reached");
+    }
+}
+scan_h! {
+    /// K01a-short: short files (look-alikes at the very end, IDAT with fewer than 4 bytes before it)
+    fn k01a_scan_tiling_short() {
+        scan_case::<4>(SIG_ZLIB, 2, SIG_NONE, 0);
+        scan_case::<6>(SIG_IDAT, 2, SIG_GZIP, 4);
+        scan_case::<3>(SIG_ZIP, 0, SIG_NONE, 0);
+        kani::cover!(true, "reached");
     }
 }
 
@@ -162,19 +177,17 @@ kproof! {
     #[kani::stub(crate::scan_deflate::parse_zip_stream, contract_parse_zip)]
     #[kani::stub(crate::idat_parse::parse_idat, contract_parse_idat)]
     fn k01a_scan_reject_all_8() {
-        let mut data = [0u8; 8];
-        let w: [u8; 4] = kani::any();
-        data[0] = w[0]; data[1] = w[1]; data[4] = w[2]; data[5] = w[3];
-        let n: usize = if kani::any() { 8 } else { 3 };
-        let mut locs: Vec<BlockChunk> = Vec::with_capacity(4);
-        split_into_deflate_streams(&data[..n], &mut locs, 0);
-        {
+        for (k1, a1, k2, a2) in [(SIG_ZLIB, 0usize, SIG_GZIP, 4usize), (SIG_ZIP, 1, SIG_IDAT, 5), (SIG_IDAT, 4, SIG_ZLIB, 6), (SIG_NONE, 0, SIG_NONE, 0)] {
+            let mut data = [0u8; 8];
+            place(&mut data, a1, k1);
+            place(&mut data, a2, k2);
+            let mut locs: Vec<BlockChunk> = Vec::with_capacity(4);
+            split_into_deflate_streams(&data[..], &mut locs, 0);
             assert!(locs.len() == 1);
-            assert!(matches!(locs[0], BlockChunk::Literal(k) if k == n), "file without accepted stream is not one literal chunk");
+            assert!(matches!(locs[0], BlockChunk::Literal(k) if k == 8), "file without accepted stream is not one literal chunk");
+            core::mem::forget(locs);
         }
-        kani::cover!(n == 8 && signature_hits(&data) == 2, "two look-alikes, both rejected");
-        kani::cover!(n == 3, "three-byte file");
-        core::mem::forget(locs);
+        kani::cover!(true, "reached");
     }
 }
 
@@ -182,10 +195,34 @@ kproof! {
 fn gzip_hdr<const N: usize>() {
     let mut src = SrcEof::<N> { data: kani::any(), pos: 0, len: kani::any() };
     kani::assume(src.len <= N);
+    // RFC 1952 reading of the header length: 10 fixed bytes, then FEXTRA (2 + XLEN), FNAME and FCOMMENT
+    // (zero-terminated), FHCRC (2), in that order
+    let d = src.data;
+    let n = src.len;
+    let mut exp: usize = 10;
+    let mut fits = n >= 10;
+    if fits && d[3] & 4 != 0 {
+        if exp + 2 <= n { let xl = u16::from_le_bytes([d[exp], d[exp + 1]]) as usize; exp += 2 + xl; fits = exp <= n; } else { fits = false; }
+    }
+    let mut f = 0;
+    while f < 2 {
+        let bit = if f == 0 { 8 } else { 16 };
+        if fits && d[3] & bit != 0 {
+            let mut found = false;
+            let mut i = 0;
+            while i < N { if !found && i >= exp && i < n && d[i] == 0 { found = true; exp = i + 1; } i += 1; }
+            fits = found;
+        }
+        f += 1;
+    }
+    if fits && d[3] & 2 != 0 { exp += 2; fits = exp <= n; }
     let r = skip_gzip_header(&mut src);
     if r.is_ok() {
         assert!(src.pos >= 10 && src.pos <= src.len);
         assert!(src.data[2] == 8);
+        assert!(fits && src.pos == exp, "gzip header length differs from the RFC 1952 reading (the stream would be looked for at the wrong offset)");
+    } else {
+        assert!(!fits || d[2] != 8, "a complete gzip header with CM = 8 was rejected");
     }
     kani::cover!(r.is_ok() && src.data[3] & 0x1e == 0x1e, "all four optional fields present and accepted");
     kani::cover!(r.is_err(), "rejected");
@@ -203,6 +240,11 @@ kproof! {
         let r = parse_zip_stream(&data[..n]);
         if let Ok((h, res)) = &r {
             assert!(*h >= 30 && *h + res.compressed_size <= n);
+            // APPNOTE 4.3.7: the data follows the 30-byte fixed part, the file name and the extra field
+            let nl = u16::from_le_bytes([data[26], data[27]]) as usize;
+            let el = u16::from_le_bytes([data[28], data[29]]) as usize;
+            assert!(*h == 30 + nl + el, "zip data offset differs from 30 + name length + extra length");
+            assert!(data[0] == 0x50 && data[1] == 0x4b && data[2] == 3 && data[3] == 4 && data[8] == 8 && data[9] == 0, "accepted without signature or with a method other than 8");
         }
         kani::cover!(r.is_ok(), "accepted");
         kani::cover!(r.is_ok() && data[26] == 2 && data[28] == 1, "name and extra present");
@@ -320,5 +362,29 @@ kproof! {
         assert_found(&locs, t);
         kani::cover!(nl == 2 && el == 2, "name and extra field present");
         core::mem::forget(locs);
+    }
+}
+
+kproof! {
+    /// K06d: the two-byte signature table: next_signature stops at a byte pair exactly when it is one of the
+    /// documented signatures (78 01 / 78 5E / 78 9C / 78 DA, PK, 1F 8B, "ID")
+    fn k06d_signature_table() {
+        let d: [u8; 3] = kani::any();
+        let mut index = 0usize;
+        let r = next_signature(&d[..], &mut index);
+        let is_sig = |a: u8, b: u8| (a == 0x78 && (b == 0x01 || b == 0x5e || b == 0x9c || b == 0xda)) || (a == 0x50 && b == 0x4b) || (a == 0x1f && b == 0x8b) || (a == 0x49 && b == 0x44);
+        let s0 = is_sig(d[0], d[1]);
+        let s1 = is_sig(d[1], d[2]);
+        assert!(r.is_some() == (s0 || s1), "signature table differs from the documented set");
+        if r.is_some() { assert!(index == if s0 { 0 } else { 1 }, "signature reported at the wrong offset"); }
+        match r {
+            Some(Signature::Zlib(_)) => assert!(d[index] == 0x78),
+            Some(Signature::ZipLocalFileHeader) => assert!(d[index] == 0x50),
+            Some(Signature::Gzip) => assert!(d[index] == 0x1f),
+            Some(Signature::IDAT) => assert!(d[index] == 0x49),
+            None => {}
+        }
+        kani::cover!(s1 && !s0, "signature at offset 1");
+        kani::cover!(r.is_none(), "no signature");
     }
 }
